@@ -675,7 +675,10 @@ def crash_cases(run, world, comp_of):
         ev, k = runs[-1]
         inf = info[-1]
         if len(runs) > 1:
-            prevs = PREV_CACHE.get(tuple((tuple(e), kk) for e, kk in runs[:-1]))
+            pkey = tuple((tuple(e), kk) for e, kk in runs[:-1])
+            if pkey not in PREV_CACHE:
+                one(runs[:-1], label + "-prefix", spelling)       # the earlier processes are a case of their own
+            prevs = PREV_CACHE.get(pkey)
         else:
             prevs = None
         ok, allowed, got = oracle(prevs if len(runs) > 1 else None, ev, inf["done"], inf["crashed"], res)
@@ -690,6 +693,11 @@ def crash_cases(run, world, comp_of):
                                 "allowed (step, version)": allowed, "observed": got, "impl_resume": res[:2],
                                 "impl_listing": ents})
         shutil.rmtree(run_dir, ignore_errors=True)
+        ident = None
+        if res[0] == "Resumed":
+            vals = set(res[2].values())
+            ident = vals.pop() if len(vals) == 1 else None
+        PREV_CACHE[tuple((tuple(e), kk) for e, kk in runs)] = ident
         return res, info
 
     for label, events in gen_histories(run):
@@ -745,6 +753,32 @@ def crash_cases(run, world, comp_of):
         shutil.rmtree(run_dir, ignore_errors=True)
         for k2 in range(n2 + 1):
             one([(first, k1), (second, k2 if k2 < n2 else None)], f"two-runs-k1={k1}")
+    # the resumed process's FIRST save is for a DIFFERENT step than the one the dead process was interrupted in
+    # (another frequency, a SAVE_NOW request): whatever the dead process left behind (latest.tmp, step_N.tmp, an
+    # unpublished step_N) must not leak into the completed save.  Every crash index of the first process.
+    for k1 in range(1, n1):
+        res1, _ = one([(first, k1)], f"other-step-first-k1={k1}")
+        start = PREV_CACHE.get(((tuple(first), k1),))
+        s0 = start[0] if start else 0
+        # one completed save of another step, then the process ends (a later save would hide a wrong link)
+        one([(first, k1), ([("request", s0 + 2, 2)], None)], f"other-step-k1={k1}")
+        if k1 % 6 == 0 or k1 >= n1 - 4:
+            one([(first, k1), ([("periodic", s0 + 2, 2), ("request", s0 + 3, 2)], None)], f"other-steps-k1={k1}")
+    # three processes: A dies between symlink(latest.tmp) and replace, B (other step) dies at every index, C completes;
+    # and C interrupted at every index after B died in the same window
+    a = (first, n1 - 1)
+    b_ev = [("request", 3, 2)]
+    run_dir, info = execute(world, [a, (b_ev, None)])
+    nb = info[1]["count"]
+    shutil.rmtree(run_dir, ignore_errors=True)
+    c_ev = [("periodic", 4, 3), ("end", 4, 3)]
+    for kb in range(nb):
+        one([a, (b_ev, kb), (c_ev, None)], f"three-runs-kb={kb}")
+    run_dir, info = execute(world, [a, (b_ev, nb - 1), (c_ev, None)])
+    nc = info[2]["count"]
+    shutil.rmtree(run_dir, ignore_errors=True)
+    for kc in range(nc):
+        one([a, (b_ev, nb - 1), (c_ev, kc)], "three-runs-kc")
     stats["wall_s"] = round(time.time() - t0, 1)
     return cs, ts, stats, samples
 
@@ -1014,6 +1048,77 @@ def training_state_probe(run, world):
     return out
 
 
+def continuation_probe(run, world):
+    """a resumed run continues like an uninterrupted one: k real train_steps, after_step save, a fresh process-like
+    state built in run_async's order (AdamW constructed BEFORE load_or_init_model), serve_mode, m more train_steps -
+    against k+m uninterrupted steps.  Deterministic: the global RNG (torch.randperm in ReplayBufferDataset) is seeded
+    before every step with a function of the step number in both branches; serve_dtype = train_dtype (cpu default)."""
+    m = world.m
+    torch = m.torch
+    out = []
+
+    def steps(tr, lo, hi, hook=None):
+        for i in range(lo, hi):
+            torch.manual_seed(7000 + i)
+            tr.train_step(synthetic_batch(m, i + 1))
+            if hook is not None:
+                hook.after_step(tr.state)
+
+    def start(run_dir):
+        torch.manual_seed(23)
+        tr = new_run(m, run_dir, cap=3)
+        tr.load_or_init_model()
+        tr.serve_mode()
+        return tr
+
+    def snapshot_of(tr):
+        return {"parameters": digest(m, {k: v for k, v in all_tensors(tr.state.model).items()}),
+                "optimiser": digest(m, tr.state.opt.state_dict()),
+                "replay_buffer": digest(m, tr.state.replay_buffer),
+                "counters": digest(m, tr.state.elapsed)}
+
+    for k, mm in ((2, 2), (1, 3)) if run.quick else ((2, 2), (1, 3), (3, 1), (2, 4), (4, 2)):
+        ref = start(None)
+        steps(ref, 0, k + mm)
+        want = snapshot_of(ref)
+        run_dir = world.fresh_dir()
+        a = start(run_dir)
+        hook = m.saving.SavingHook(freq=k)
+        hook.before_run(a.state, a.config)
+        steps(a, 0, k, hook)
+        b = new_run(m, run_dir, cap=3)              # optimiser constructed before loading, as run_async does
+        info = {"steps_before_save": k, "steps_after_resume": mm, "device": "cpu", "serve_dtype": str(b.config.serve_dtype),
+                "seed": 23, "replay_buffer_steps": 3}
+        try:
+            b.load_or_init_model()
+        except Exception as e:      # noqa
+            run.violation(f"resume-diverges:load-raises:k={k}", {"clause": "a completed save resumes", "exception": repr(e)[:300], **info})
+            continue
+        mp = {id(p) for p in b.state.model.parameters()}
+        orphans = sum(1 for g in b.state.opt.param_groups for p in g["params"] if id(p) not in mp)
+        total = sum(len(g["params"]) for g in b.state.opt.param_groups)
+        info["optimiser_params_not_model_parameters"] = f"{orphans} of {total}"
+        if orphans:
+            run.violation("resume-diverges:optimizer-params-orphaned",
+                          {"clause": "the resumed run trains: every tensor in opt.param_groups IS a parameter of the "
+                                     "model after load_or_init_model (the optimiser is constructed before loading)", **info})
+        b.serve_mode()
+        try:
+            steps(b, k, k + mm)
+        except Exception as e:      # noqa
+            run.violation(f"resume-diverges:train_step-raises:k={k}:m={mm}", {"clause": "the resumed run trains", "exception": repr(e)[:300], **info})
+            continue
+        got = snapshot_of(b)
+        info["diverging"] = [c for c in want if want[c] != got[c]]
+        out.append(info)
+        for c in info["diverging"]:
+            run.violation(f"resume-diverges:{c}",
+                          {"clause": "training state survives a snapshot: k steps, save, resume, m steps = k+m uninterrupted "
+                                     "steps, bit for bit", "component": c, **info})
+        shutil.rmtree(run_dir, ignore_errors=True)
+    return out
+
+
 # ----------------------------------------------------------------------------
 def correspondence(run):
     import contextlib
@@ -1110,6 +1215,11 @@ def _correspondence(run):
         for meta in failing[:5]:
             run.violation(f"window:cap={meta['cap']}", {"clause": "the replay window holds exactly the most recent "
                                                         "replay_buffer_steps batches", "input": meta})
+        cont = continuation_probe(run, world)
+        run.extra["continuation_probe"] = cont
+        run.count(len(cont), len(cont), "k train_steps, save, fresh state (AdamW built before load_or_init_model), m train_steps "
+                  "vs k+m uninterrupted: parameters+buffers, optimiser state, replay buffer, counters bit for bit; "
+                  "opt.param_groups tensors are the model's parameters (identity)", cont[:2], label="continuation")
         probe = training_state_probe(run, world)
         run.extra["training_state_probe"] = probe
         run.count(len(probe), len(probe), "train_step x2 -> after_step save -> resume in a fresh run, serve_dtype float32 "
